@@ -69,6 +69,20 @@ def directed_adagrid_threshold(res, seed):
     one_pair(res, 'adagrid', dom, rows, rows2, {'epsilon': eps, 'delta': delta, 'threshold': thr, 'targets': [], 'split_strategy': None}, seed, 'directed')
 
 
+def directed_constant_attribute(res, r, seed):
+    """an attribute that takes a single value in D although its domain is larger; the neighbour adds a record with another value:
+    nothing outside the DP primitives may depend on how many distinct values the raw column holds"""
+    dom = [['a', 2], ['b', 3], ['c', 4], ['d', 2]]
+    rows = [[r.randrange(2), r.randrange(3), r.randrange(4), 0] for _ in range(300)]
+    rows2 = rows + [[1, 2, 3, 1]]
+    for name in ('adagrid', 'mst', 'aim'):
+        params = c05.gen_params(r, name, dom)
+        if name == 'adagrid':
+            params['targets'] = []
+        one_pair(res, name, dom, rows, rows2, params, seed * 1000 + 77, 'directed')
+    res.count('directed: attribute constant in the data, neighbour adds another value')
+
+
 def run(res, drv, tier, seed):
     r = rng(seed, 'C06')
     per = 3 if tier == 'quick' else 25
@@ -82,6 +96,7 @@ def run(res, drv, tier, seed):
             rows2 = c05.neighbour(r, dom, rows, bounded, directed)
             one_pair(res, name, dom, rows, rows2, params, seed * 1000 + k, 'directed' if directed else 'random')
     directed_adagrid_threshold(res, seed)
+    directed_constant_attribute(res, r, seed)
 
 
 def search(res, tier, seed, broken):
